@@ -1,0 +1,12 @@
+//go:build verif
+// +build verif
+
+package stackinit
+
+import "os"
+
+// Verification hook (build tag verif): a conformance harness imports the
+// application packages (which import this package) on a machine without a
+// TAP device and installs stack.Pstack itself. Setting VERIF_STACKINIT_REAL
+// in the environment asks for the ordinary initialisation.
+func verifSkipInit() bool { return os.Getenv("VERIF_STACKINIT_REAL") == "" }
